@@ -94,6 +94,35 @@ def relation(F, bodies, src_is, dst_is):
                 for sf in {(a, f) for (a, f) in term_fields(t) if src_is(a)}:
                     rel.add((key, sf))
                     samples[key] = show(t)[:140]
+        # mutation through `&mut x.f` handed to a call (`proto.parents.push(v)`)
+        for i, blk in enumerate(b.blocks):
+            if blk.get("c"):
+                continue
+            for st in blk["s"]:
+                rv = st["r"]
+                if rv["k"] != "ref" or rv["m"] != "mut" or len(st["l"]) != 1:
+                    continue
+                fs_ = [e for e in rv["p"][1:] if isinstance(e, list) and e[0] == "f" and len(e) >= 5]
+                if not fs_ or not dst_is(fs_[0][3]):
+                    continue
+                tmp = st["l"][0]
+                for c in b.calls:
+                    if c.cleanup:
+                        continue
+                    idx = [k for k, a in enumerate(c.args) if a[0] in ("c", "m") and a[1] == [tmp]]
+                    if not idx:
+                        continue
+                    if sl is None:
+                        sl = F.slicer(b.id, with_mutators=True)
+                    key = (fs_[0][3], fs_[0][2])
+                    for k in range(len(c.args)):
+                        if k in idx:
+                            continue
+                        t = sl.call_arg(c, k)
+                        sites += 1
+                        for sf in {(a, f) for (a, f) in term_fields(t) if src_is(a)}:
+                            rel.add((key, sf))
+                            samples[key] = show(t)[:140]
     return rel, samples, unset, sites
 
 
